@@ -69,7 +69,7 @@ func parseString(filename string, input antlr.CharStream) (tree parser.ISysl_fil
 	defer func() {
 		// recover from panic if one occurred. Set err to nil otherwise.
 		if recover() != nil {
-			err = syslutil.Exitf(ParseError, fmt.Sprintf("%s has syntax errors\n", filename))
+			err = syslutil.Exitf(ParseError, "%s has syntax errors\n", filename)
 		}
 	}()
 
@@ -86,7 +86,7 @@ func parseString(filename string, input antlr.CharStream) (tree parser.ISysl_fil
 	verifYield("parse", filename, 0)
 	tree = p.Sysl_file()
 	if errorListener.hasErrors {
-		return nil, syslutil.Exitf(ParseError, fmt.Sprintf("%s has syntax errors\n", filename))
+		return nil, syslutil.Exitf(ParseError, "%s has syntax errors\n", filename)
 	}
 	return tree, nil
 }
@@ -106,7 +106,7 @@ func importForeign(def importDef, input antlr.CharStream) (antlr.CharStream, err
 	case importer.SyslPB.Name:
 		m, err := pbutil.FromPBByteContents(fileName, []byte(file))
 		if err != nil {
-			return nil, syslutil.Exitf(ParseError, fmt.Sprintf("%s has unknown format: %s", fileName, err))
+			return nil, syslutil.Exitf(ParseError, "%s has unknown format: %s", fileName, err)
 		}
 		var buf bytes.Buffer
 		printer.Module(&buf, m)
@@ -116,20 +116,20 @@ func importForeign(def importDef, input antlr.CharStream) (antlr.CharStream, err
 	case importer.OpenAPI3.Name, importer.OpenAPI2.Name, importer.Protobuf.Name:
 		imp, err := importer.Factory(fileName, false, "", []byte(file), logger)
 		if err != nil {
-			return nil, syslutil.Exitf(ParseError, fmt.Sprintf("%s has unknown format: %s", fileName, err))
+			return nil, syslutil.Exitf(ParseError, "%s has unknown format: %s", fileName, err)
 		}
 		imp, err = imp.Configure(&importer.ImporterArg{AppName: def.appname, PackageName: def.pkg, Imports: ""})
 		if err != nil {
-			return nil, syslutil.Exitf(ParseError, err.Error())
+			return nil, syslutil.Exitf(ParseError, "%s", err.Error())
 		}
 		// FIXME: because filepath information is not provided, external references are ignored in OpenAPI3.
 		output, err := imp.Load(file)
 		if err != nil {
-			return nil, syslutil.Exitf(ParseError, fmt.Sprintf("%s has unknown format: %s", fileName, err))
+			return nil, syslutil.Exitf(ParseError, "%s has unknown format: %s", fileName, err)
 		}
 		return antlr.NewInputStream(output), nil
 	default:
-		return nil, syslutil.Exitf(ParseError, fmt.Sprintf("%s has unknown format", fileName))
+		return nil, syslutil.Exitf(ParseError, "%s has unknown format", fileName)
 	}
 }
 
@@ -411,9 +411,9 @@ func (p *Parser) collectSpecs(
 			appname1 := strings.ReplaceAll(fi.src.src.appname, " :: ", "::")
 			appname2 := strings.ReplaceAll(source.appname, " :: ", "::")
 			if appname1 != appname2 {
-				return syslutil.Exitf(ImportError, fmt.Sprintf(
+				return syslutil.Exitf(ImportError,
 					"%#v imported as different appnames: '%v' and '%v'", filenameIndex, appname1, appname2,
-				))
+				)
 			}
 
 			ver1 := ""
@@ -439,9 +439,9 @@ func (p *Parser) collectSpecs(
 			}
 
 			if ver1 != ver2 {
-				return syslutil.Exitf(ImportError, fmt.Sprintf(
+				return syslutil.Exitf(ImportError,
 					"%#v imported as different versions: '%v' and '%v'", filenameIndex, ver1, ver2,
-				))
+				)
 			}
 		}
 
@@ -454,9 +454,9 @@ func (p *Parser) collectSpecs(
 
 	content, hash, branch, err := reader.ReadHashBranch(ctx, source.filename)
 	if err != nil {
-		return syslutil.Exitf(ImportError, fmt.Sprintf(
+		return syslutil.Exitf(ImportError,
 			"error reading %#v: \n%v\n", source.filename, err,
-		))
+		)
 	}
 	fi.src.input = string(content)
 
@@ -488,9 +488,9 @@ func (p *Parser) collectSpecs(
 
 	err = g.Wait()
 	if err != nil {
-		return syslutil.Exitf(ImportError, fmt.Sprintf(
+		return syslutil.Exitf(ImportError,
 			"error reading %#v: \n%v", source.filename, err,
-		))
+		)
 	}
 
 	return nil
